@@ -3,16 +3,16 @@ from shell import c07
 
 ID = "C07"
 LEVEL = "other"
-FUNCTIONS = ["Broker.context", "Broker.rebalance", "RewardSimpleReturn.calculate", "RewardPnL.calculate",
+FUNCTIONS = ["TrackRecord._checkpoint", "TrackRecord.__getitem__", "Broker.context", "Broker.rebalance", "RewardSimpleReturn.calculate", "RewardPnL.calculate",
              "RewardLogReturn.calculate", "LogReturn.calculate", "TradingEnv.step"]
 SHELL = [c07.records]
 LEVEL_TEXT = ("Deductive kernel: Broker.rebalance's postconditions (recorded pre/post NLV are equity(B) before/after the trades; the "
               "recorded trades' ledger reproduces post - pre; exactly one checkpoint per executed decision), the four reward formulas, "
               "and step's effect order; bounded shell: an independent ledger replays recorded trades and interest over seeded episodes "
-              "(TrackRecord's python/pandas bookkeeping - _checkpoint, __getitem__, accessors - is covered only there).")
+              "(TrackRecord._checkpoint and __getitem__ are verified against concrete contracts over a list of symbolic length; the pandas accessors are covered only by the shell).")
 EXPLANATION = LEVEL_TEXT
-NOT_DEDUCTIVE = ["TrackRecord._checkpoint/__getitem__ (ASSUMED contracts) and the pandas accessors: bounded shell only",
+NOT_DEDUCTIVE = ["the pandas accessors of TrackRecord: bounded shell only (TrackRecord._checkpoint/__getitem__ are verified against concrete contracts; their abstraction at call sites is argued)",
                  "strictly increasing record stamps on bar-shaped data (lemma stamps_increasing): argued from the clock contract; observed by the shell"]
-EXTRA_ASSUMPTIONS = ["ASSUMED contracts: TrackRecord._checkpoint, TrackRecord.__getitem__, TradingEnv._process_*_events, notify, IState.__call__"]
+EXTRA_ASSUMPTIONS = ["ASSUMED contracts: TradingEnv._process_*_events, notify, IState.__call__"]
 
 USES_SUM_LEMMAS = True
